@@ -24,6 +24,8 @@ def oracle_c13(r):
     for t in iso["tracks"]:
         tb = muxcheck.norm_tables(t["tables"])
         offs = tb["co64"] if tb["co64"] is not None else tb["stco"]
+        if offs is None:
+            return {"what": "track %s is written with neither a 32-bit nor a 64-bit chunk offset table" % t["id"]}
         need64 = any(o >= U32 for o in offs)
         if need64 != (tb["co64"] is not None) or (tb["co64"] is not None and tb["stco"] is not None):
             return {"what": "track %s: co64 used=%s but a 64-bit offset is needed=%s" % (t["id"], tb["co64"] is not None, need64), "offsets": offs[:8]}
